@@ -237,6 +237,19 @@ Fixpoint cv_attributes (u : unitd) (m : idmap) (l : list attr) : res (list cattr
         Ok ({| ca_name := at_name a; ca_body := at_body a; ca_refs := ids |} :: r)
   end.
 
+(* the attribute-by-attribute loop documented on ConvertUnit (convert_attribute_value per attribute; an
+   attribute whose conversion fails is skipped) *)
+Fixpoint cv_attributes_tol (u : unitd) (m : idmap) (l : list attr) : list cattr :=
+  match l with
+  | [] => []
+  | a :: l' =>
+      if at_name a =? DW_AT_GNU_locviews then cv_attributes_tol u m l'
+      else match cv_sites u m (at_sites a) with
+           | Ok ids => {| ca_name := at_name a; ca_body := at_body a; ca_refs := ids |} :: cv_attributes_tol u m l'
+           | _ => cv_attributes_tol u m l'
+           end
+  end.
+
 (* read_entry's filter_attributes followed by convert_attributes *)
 Definition cv_entry_attrs (u : unitd) (m : idmap) (e : aentry) : res (list cattr) :=
   cv_attributes u m (snd (cu_filter_attributes (ae_attrs e))).
@@ -268,7 +281,7 @@ Fixpoint aflatten_list (d : Z) (l : list atree) : list arawent :=
 Record cdie := { cd_off : N; cd_parent : N; cd_id : eid; cd_sibling : bool; cd_attrs : list cattr }.
 
 (* ConvertUnit::read_entry + add_entry + convert_attributes for one DIE below the root (compare Filter.cu_entry) *)
-Definition cua_entry (u : unitd) (m : idmap) (st : list (Z * N) * list cdie) (r : arawent)
+Definition cua_entry (tol : bool) (u : unitd) (m : idmap) (st : list (Z * N) * list cdie) (r : arawent)
   : res (list (Z * N) * list cdie) :=
   let '(ps, out) := st in
   let eo := sec u (ae_off (ar_ent r)) in
@@ -278,36 +291,36 @@ Definition cua_entry (u : unitd) (m : idmap) (st : list (Z * N) * list cdie) (r 
       let parent := match ps1 with (_, pid) :: _ => pid | [] => root_off u end in
       let ps2 := if ar_kids r then (ar_depth r, eo) :: ps1 else ps1 in
       let '(sib, l) := cu_filter_attributes (ae_attrs (ar_ent r)) in
-      let* ca := cv_attributes u m l in
+      let* ca := (if tol then Ok (cv_attributes_tol u m l) else cv_attributes u m l) in
       Ok (ps2, out ++ [{| cd_off := eo; cd_parent := parent; cd_id := id; cd_sibling := sib; cd_attrs := ca |}])
   | None => Ok (ps1, out)
   end.
 
-Fixpoint cua_entries (u : unitd) (m : idmap) (st : list (Z * N) * list cdie) (rs : list arawent)
+Fixpoint cua_entries (tol : bool) (u : unitd) (m : idmap) (st : list (Z * N) * list cdie) (rs : list arawent)
   : res (list (Z * N) * list cdie) :=
   match rs with
   | [] => Ok st
-  | r :: rs' => let* st' := cua_entry u m st r in cua_entries u m st' rs'
+  | r :: rs' => let* st' := cua_entry tol u m st r in cua_entries tol u m st' rs'
   end.
 
-Fixpoint convert_units_attrs (m : idmap) (aunits : list aunit) (out : list cdie) : res (list cdie) :=
+Fixpoint convert_units_attrs (tol : bool) (m : idmap) (aunits : list aunit) (out : list cdie) : res (list cdie) :=
   match aunits with
   | [] => Ok out
   | au :: us =>
       let u := unit_of au in
       let ps0 := if is_nil (au_kids au) then [] else [(0%Z, root_off u)] in
-      let* st := cua_entries u m (ps0, out) (aflatten_list 1 (au_kids au)) in
-      convert_units_attrs m us (snd st)
+      let* st := cua_entries tol u m (ps0, out) (aflatten_list 1 (au_kids au)) in
+      convert_units_attrs tol m us (snd st)
   end.
 
-(* Dwarf::convert_with_filter + ConvertUnit::convert, and Dwarf::from *)
-Definition convert_filtered_attrs (dbg : bool) (req : N -> bool) (aunits : list aunit) : res (idmap * list cdie) :=
+(* Dwarf::convert_with_filter + ConvertUnit::convert (tol = false) or the tolerant loop (tol = true), and Dwarf::from *)
+Definition convert_filtered_attrs (tol : bool) (dbg : bool) (req : N -> bool) (aunits : list aunit) : res (idmap * list cdie) :=
   let* m := ids_filtered dbg req (map unit_of aunits) in
-  let* out := convert_units_attrs m aunits [] in
+  let* out := convert_units_attrs tol m aunits [] in
   Ok (m, out).
 Definition convert_all_attrs (aunits : list aunit) : res (idmap * list cdie) :=
   let m := ids_all (map unit_of aunits) in
-  let* out := convert_units_attrs m aunits [] in
+  let* out := convert_units_attrs false m aunits [] in
   Ok (m, out).
 
 (* ------------------------------------------------------------------------------------------ *)
